@@ -114,6 +114,223 @@ def nontrivial(op, args, real):
     return json.dumps(args, sort_keys=True) if sum(1 for s in real.get("steps", []) if s is not None) >= 2 else None
 
 
+
+# --------------------------------------------------------------------------
+# real signing / wrapping histories: every earlier entry stays usable, order kept,
+# an already-encoded protected header is carried over byte for byte
+# --------------------------------------------------------------------------
+import keys as K
+import jwegen as E
+import jwsgen as G
+from props import c03 as C03
+from props import c04 as C04
+from props import c15 as C15
+
+
+def jws_entries(tok):
+    if isinstance(tok.get("signatures"), list):
+        return tok["signatures"]
+    m = members("jws", tok)
+    return [m] if m else []
+
+
+def jwe_entries(tok):
+    if isinstance(tok.get("recipients"), list):
+        return tok["recipients"]
+    m = members("jwe", tok)
+    return [m] if m else []
+
+
+def check_step(kind, before, after, tmpl, site_args):
+    """direct oracle for one successful addition on real objects"""
+    ents = jws_entries if kind == "jws" else jwe_entries
+    b = ents({k: v for k, v in before.items() if not (k == SETS[kind][0] and v == [])})
+    lay = layout(kind, after)
+    if lay[0] == "bad":
+        return ("real:layout", "%s after a successful addition: %s" % (lay[1], json.dumps(after)[:300]))
+    a = ents(after)
+    if len(a) != len(b) + 1:
+        return ("real:count", "%d entries before, %d after one addition: %s" % (len(b), len(a), json.dumps(after)[:300]))
+    if (lay[0] == "flat") != (len(a) == 1):
+        return ("real:layout", "%s form with %d entries" % (lay[0], len(a)))
+    for i, (x, y) in enumerate(zip(b, a)):
+        if members(kind, x) != members(kind, y):
+            return ("real:moved", "entry %d changed by a later addition: %s -> %s" % (i, json.dumps(x)[:200], json.dumps(y)[:200]))
+    new = a[-1]
+    if kind == "jws":
+        tp = (tmpl or {}).get("protected")
+        if isinstance(tp, str) and new.get("protected") != tp:
+            return ("real:protected-reencoded", "template's encoded protected header %s became %s" % (tp, new.get("protected")))
+        if isinstance(tp, dict):
+            d = C15.as_obj(new.get("protected", "ABSENT")) or {}
+            for k, v in tp.items():
+                if d.get(k) != v:
+                    return ("real:protected-altered", "protected member %r of the template is not in the encoded header: %s" % (k, json.dumps(new)[:200]))
+        for k, v in ((tmpl or {}).get("header") or {}).items():
+            if (new.get("header") or {}).get(k) != v:
+                return ("real:header-altered", "unprotected header member %r lost" % k)
+    else:
+        if isinstance(before.get("protected"), str) and after.get("protected") != before["protected"]:
+            return ("real:protected-reencoded", "the JWE's encoded protected header %s became %s" % (before["protected"], after.get("protected")))
+    for k, v in before.items():
+        if k not in SETS[kind][1] and k != SETS[kind][0] and k != "protected" and after.get(k) != v:
+            return ("real:frame", "top-level member %r changed" % k)
+    return None
+
+
+def run_real(ctx):
+    rng = ctx.rng
+    pool = K.pool(ctx.jose)
+    quick = ctx.tier == "quick"
+    kid = lambda i: "k%d" % i
+    signers = [("HS256", "oct-32"), ("HS512", "oct-64"), ("ES256", "EC-P256"), ("ES384", "EC-P384"), ("ES512", "EC-P521"),
+               ("RS256", "RSA-2048"), ("PS256", "RSA-2048-b"), ("ES256K", "EC-K256"), ("HS384", "oct-48")]
+
+    def tmpl_for(alg, i, form):
+        if form == "none":
+            return None, True
+        if form == "empty":
+            return {}, True
+        if form == "prot-obj":
+            return {"protected": {"alg": alg, "kid": kid(i)}}, True
+        if form == "prot-enc":
+            return {"protected": C15.enc({"alg": alg, "kid": kid(i)})}, True
+        if form == "prot-enc+hdr":
+            return {"protected": C15.enc({"kid": kid(i)}), "header": {"alg": alg, "n": i}}, True
+        if form == "hdr":
+            return {"header": {"alg": alg, "kid": kid(i)}}, True
+        if form == "prot-obj-noalg":
+            return {"protected": {"kid": kid(i)}, "header": {"n": [i]}}, True
+        if form == "prot-enc-noalg":      # the inferred algorithm cannot be recorded: must be refused, nothing altered
+            return {"protected": C15.enc({"kid": kid(i)})}, False
+        if form == "prot-enc-empty-noalg":
+            return {"protected": "e30", "header": {"kid": kid(i)}}, False
+        raise KeyError(form)
+    forms = ["none", "empty", "prot-obj", "prot-enc", "prot-enc+hdr", "hdr", "prot-obj-noalg", "prot-enc-noalg", "prot-enc-empty-noalg"]
+    hist = []
+    starts_ = [{"payload": "cGF5bG9hZA"}, {"payload": "cGF5bG9hZA", "signatures": []}, {"payload": ""}]
+    # every template form at every position of a 3-step history, plus random longer ones
+    for pos in range(3):
+        for form in forms:
+            steps = [(rng.choice(signers), "prot-obj") for _ in range(3)]
+            steps[pos] = (rng.choice(signers), form)
+            hist.append({"jws": dict(rng.choice(starts_)), "steps": steps, "keys": [], "i": 0})
+    for _ in range(25 if quick else 300):
+        n = rng.randrange(2, 7)
+        hist.append({"jws": dict(rng.choice(starts_)), "steps": [(rng.choice(signers), rng.choice(forms)) for _ in range(n)], "keys": [], "i": 0})
+    step = 0
+    while True:
+        live = [h for h in hist if h["i"] < len(h["steps"])]
+        if not live:
+            break
+        ops, meta = [], []
+        for h in live:
+            (alg, kn), form = h["steps"][h["i"]]
+            t, ok = tmpl_for(alg, h["i"], form)
+            a = {"jws": h["jws"], "jwk": pool[kn], "_why": "history step %d, template %s" % (h["i"], form)}
+            if t is not None:
+                a["sig"] = t
+            if ok:
+                a["_expect_ok"] = True
+            else:
+                a["_must_fail"] = True
+            ops.append(("jws.sig", a))
+            meta.append((h, t, ok, kn))
+        real, model = C15.cmp_sig(ctx, ops, C15.p_recorded_sig)
+        ver = []
+        for (h, t, ok, kn), r in zip(meta, real):
+            h["i"] += 1
+            if not r.get("ok"):
+                continue
+            pf = check_step("jws", h["jws"], r["jws"], t, None)
+            if pf:
+                ctx.pfails.append((pf[0], pf[1] + " :: " + json.dumps({"before": h["jws"], "sig": t})[:400], "jws.sig",
+                                   {"jws": h["jws"], "sig": t, "jwk": pool[kn]} if t is not None else {"jws": h["jws"], "jwk": pool[kn]}, r))
+            h["jws"] = r["jws"]
+            h["keys"].append(kn)
+            # every signature added so far still verifies, under its key alone and under all keys together
+            for j, k in enumerate(h["keys"]):
+                ver.append(("jws.ver", {"jws": h["jws"], "jwk": K.public(pool[k]) if pool[k]["kty"] != "oct" else pool[k], "all": False,
+                                        "_expect": True, "_why": "entry %d of %d after step %d" % (j, len(h["keys"]), h["i"])}))
+            ver.append(("jws.ver", {"jws": h["jws"], "jwk": [pool[k] for k in h["keys"]], "all": True, "_expect": True,
+                                    "_why": "all %d keys after step %d" % (len(h["keys"]), h["i"])}))
+        C15.cmp_sig(ctx, ver, C03.p_ver)
+        ctx.count("real:jws-steps", len(ops))
+        ctx.count("real:jws-verifications", len(ver))
+        step += 1
+
+    # ---- JWE: recipients added one by one, content encryption, then one more recipient (re-wrap) ----
+    wraps = [("A128KW", "oct-16"), ("A192KW", "oct-24"), ("A256GCMKW", "oct-32"), ("ECDH-ES+A128KW", "EC-P256"),
+             ("ECDH-ES+A256KW", "EC-P521"), ("RSA-OAEP", "RSA-2048"), ("RSA-OAEP-256", "RSA-2048-b"), ("PBES2-HS256+A128KW", "pw")]
+    def key(n):
+        return "correct horse battery" if n == "pw" else pool[n]
+    hist = []
+    for _ in range(20 if quick else 250):
+        n = rng.randrange(1, 5)
+        ce = rng.choice(E.ENCS)
+        start = {"protected": {"enc": ce}}
+        if rng.random() < 0.3:
+            start["recipients"] = []
+        if rng.random() < 0.3:
+            start["unprotected"] = {"kid": "shared"}
+        sel = [rng.choice(wraps) for _ in range(n)]
+        # RSA recipients last: the recorded RSA1_5/RSA shadowing finding is not this property's business
+        hist.append({"jwe": start, "cek": {}, "sel": sel, "i": 0, "pt": rng.randbytes(rng.choice([0, 1, 16, 100])), "dead": False})
+    for step in range(4):
+        live = [h for h in hist if h["i"] < len(h["sel"]) and not h["dead"]]
+        if not live:
+            break
+        ops = []
+        for h in live:
+            w, kn = h["sel"][h["i"]]
+            rcp = rng.choice([{"header": {"alg": w}}, {"header": {"alg": w, "kid": kid(h["i"])}}, {}]) if False else {"header": {"alg": w, "kid": kid(h["i"])}}
+            h["rcp"] = rcp
+            ops.append(("jwe.enc_jwk", {"jwe": h["jwe"], "rcp": rcp, "jwk": key(kn), "cek": h["cek"], "rand": rng.randbytes(200).hex(),
+                                        "_wrap": w, "_expect_ok": True}))
+        real, model = C04.cmp(ctx, ops, C04.p_enc)
+        for h, r in zip(live, real):
+            h["i"] += 1
+            if not r.get("ok"):
+                h["dead"] = True
+                continue
+            pf = check_step("jwe", h["jwe"], r["jwe"], h["rcp"], None)
+            if pf:
+                ctx.pfails.append((pf[0], pf[1], "jwe.enc_jwk", {"jwe": h["jwe"], "rcp": h["rcp"], "jwk": key(h["sel"][h["i"] - 1][1]), "cek": h["cek"]}, r))
+            h["jwe"], h["cek"] = r["jwe"], r["cek"]
+        ctx.count("real:jwe-steps", len(ops))
+    done = [h for h in hist if not h["dead"]]
+    ops = [("jwe.enc_cek", {"jwe": h["jwe"], "cek": h["cek"], "pt": h["pt"].hex(), "rand": rng.randbytes(64).hex(), "_expect_ok": True}) for h in done]
+    real, model = C04.cmp(ctx, ops, C04.p_enc)
+    dec, more, keep = [], [], []
+    for h, r in zip(done, real):
+        if not r.get("ok"):
+            continue
+        h["jwe"] = r["jwe"]
+        for j, (w, kn) in enumerate(h["sel"]):
+            dec.append(("jwe.dec", {"jwe": h["jwe"], "rcp": jwe_entries(h["jwe"])[j], "jwk": key(kn), "rand": "00" * 600, "_pt": h["pt"].hex(),
+                                    "_why": "recipient %d (%s) of %d" % (j, w, len(h["sel"]))}))
+        w, kn = rng.choice(wraps)
+        more.append(("jwe.enc_jwk", {"jwe": h["jwe"], "rcp": {"header": {"alg": w, "kid": "late"}}, "jwk": key(kn), "cek": h["cek"],
+                                     "rand": rng.randbytes(200).hex(), "_wrap": w, "_expect_ok": True}))
+        keep.append((h, w, kn))
+    C04.cmp(ctx, dec, C04.p_dec)
+    real, model = C04.cmp(ctx, more, C04.p_enc)
+    dec = []
+    for (h, w, kn), (op, a), r in zip(keep, more, real):
+        if not r.get("ok"):
+            continue
+        pf = check_step("jwe", h["jwe"], r["jwe"], a["rcp"], None)
+        if pf:
+            ctx.pfails.append((pf[0], pf[1] + " (recipient added after content encryption)", "jwe.enc_jwk", C04.strip(a), r))
+        tok = r["jwe"]
+        allk = h["sel"] + [(w, kn)]
+        for j, (w2, kn2) in enumerate(allk):
+            dec.append(("jwe.dec", {"jwe": tok, "rcp": jwe_entries(tok)[j], "jwk": key(kn2), "rand": "00" * 600, "_pt": h["pt"].hex(),
+                                    "_why": "recipient %d (%s) of %d after a late addition" % (j, w2, len(allk))}))
+    C04.cmp(ctx, dec, C04.p_dec)
+    ctx.count("real:jwe-decryptions", len(dec))
+
+
 def run(ctx):
     ops = []
     maxlen = 4 if ctx.tier == "quick" else 5
